@@ -32,6 +32,16 @@ naive,1|2 | fixed,1|2 | capacity | effective_throughput), iPu = v, noise_var = v
 pe = v, run on channel A (K=2,n=2,rank 1) | channel B (K=2,n=3,rank 2).  After the
 last run: all B- (resp. A-) relations for the CURRENT configuration (model: last
 assignment wins) and bit-for-bit equality with a freshly constructed object.
+The caller keeps ONE channel ndarray (BlockDiagonalizer) / ONE channel object
+(ext-int classes) per layout for the whole history; the event refresh(A|B)
+overwrites that SAME buffer in place (H[:] = next member) / re-initialises that
+SAME channel object; after the last run the inputs must be bit-identical and a
+second call on the same objects must return the same.
+Scale families (A and B): every coefficient x c, c in {1e-12,1e-9,1e-6,1e6}, with
+noise x c^2 (and pe x c^2 where only the users' channel is scaled) and one
+independently scaled noise; every tolerance is relative to the scale of the case.
+A0/B0: the channel array / channel object handed in is bit-identical after the
+call; (A) a second call with the same objects returns the same.
 """
 import math
 
@@ -55,7 +65,10 @@ RULE = ("A: (K,n) in {2,3}x{1,2,3} x {generic G_s, weak user, weak antenna, kapp
         "family member, iPu, noise, rank, pe, variant). H: one re-used EnhancedBD/WhiteningBD/"
         "BlockDiagonalizer object x every event sequence <= depth 3 (thorough 4) ending in a run over "
         "{set metric x7, iPu x2, pe x2, noise_var, run A|B}; result of the last run checked against the "
-        "relations for the current configuration and bit-for-bit against a fresh object; distinct = history")
+        "relations for the current configuration and bit-for-bit against a fresh object; distinct = history. "
+        "Histories include refresh-in-place of the caller's one channel buffer / channel object; inputs "
+        "bit-identical after every checked call; repeated call identical. Scale families: A and B with all "
+        "coefficients x{1e-12,1e-9,1e-6,1e6}, noise (pe) x c^2 and one independent noise")
 
 LAYOUTS = ((2, 1), (2, 2), (3, 1), (2, 3), (3, 2), (3, 3))
 IPUS = (1.0, 0.5, 2.5)
@@ -113,13 +126,20 @@ def ext_channel(K, n, r, s):
 # reference model pieces
 # ----------------------------------------------------------------------
 def ref_waterfilling(g, Pt, N):
+    """(P, level).  Powers are computed without forming level - threshold
+    (P_i = (Pt + sum_j (t_j - t_i)) / k over the k active channels), so they stay
+    relatively accurate when the thresholds dwarf Pt."""
     t = [N / gi for gi in g]
-    ts = sorted(t)
+    order = sorted(range(len(t)), key=lambda i: t[i])
+    ts = [t[i] for i in order]
     for k in range(len(ts), 0, -1):
-        level = math.fsum([Pt] + ts[:k]) / k
-        if level >= ts[k - 1] or k == 1:
+        if k == 1 or math.fsum([Pt] + [tj - ts[k - 1] for tj in ts[:k]]) >= 0.0:
             break
-    return [max(0.0, level - ti) for ti in t], level
+    level = math.fsum([Pt] + ts[:k]) / k
+    P = [0.0] * len(t)
+    for r in range(k):
+        P[order[r]] = max(0.0, math.fsum([Pt] + [tj - ts[r] for tj in ts[:k]]) / k)
+    return P, level
 
 
 def stream_gains(H, K, n):
@@ -257,6 +277,16 @@ def eval_plain(chk, H, K, n, iPu, noise, case):
             W = bd.calc_receive_filter(newH)
             check_plain(chk, H, K, n, iPu, noise, method, newH, Ms, W, dict(case, method=method),
                         kappaH, float(sv[0]))
+            if not np.array_equal(bigH, H):
+                chk.fail(("BlockDiagonalizer." + method, "input_channel_modified"),
+                         dict(case, method=method), observed=bigH, expected=H)
+            keepH, keepMs = np.array(newH), np.array(Ms)
+            newH_b, Ms_b = getattr(bd, method)(bigH)
+            chk.count("eval_plain_bd")
+            if not (np.array_equal(newH_b, keepH) and np.array_equal(Ms_b, keepMs)
+                    and np.array_equal(newH, keepH) and np.array_equal(Ms, keepMs)):
+                chk.fail(("BlockDiagonalizer." + method, "second_call_same_objects_differs"),
+                         dict(case, method=method), observed=Ms_b, expected=keepMs)
             if method == "block_diagonalize":
                 newH2, Ms2 = bdm.block_diagonalize(bigH, K, iPu, noise)
                 W2 = bdm.calc_receive_filter(newH2)
@@ -300,7 +330,7 @@ def apply_metric(obj, metric, ns):
         obj.set_ext_int_handling_metric(metric)
 
 
-def run_variant(Hfull, K, n, r, noise, pe, iPu, variant):
+def run_variant(Hfull, K, n, r, noise, pe, iPu, variant, chk=None, case=None):
     """fresh channel + fresh BD object; returns (Ms_all, W_all, Ns_all)"""
     from pyphysim.channels import multiuser
     from pyphysim.comm import blockdiagonalization as bdm
@@ -322,7 +352,22 @@ def run_variant(Hfull, K, n, r, noise, pe, iPu, variant):
                                                      "packet_length": 60})
         else:
             obj.set_ext_int_handling_metric(metric)
-    return obj.block_diagonalize_no_waterfilling(mc)
+    res = obj.block_diagonalize_no_waterfilling(mc)
+    if chk is not None:
+        check_channel_untouched(chk, mc, Hfull, K, n, noise, ("WhiteningBD" if kind == "whitening"
+                                                               else "EnhancedBD", str(metric)), case)
+    return res
+
+
+def check_channel_untouched(chk, mc, Hfull, K, n, noise, name, case):
+    """the channel object handed to the BD object is bit-identical after the call"""
+    ok = (np.array_equal(mc.big_H, Hfull) and mc.noise_var == noise and mc.K == K
+          and np.array_equal(mc.Nr, np.full(K, n)) and np.array_equal(mc.Nt, np.full(K, n)))
+    if not ok:
+        chk.fail(tuple(name) + ("input_channel_object_modified",), case,
+                 observed="big_H equal=%r noise_var=%r Nt=%r" % (bool(np.array_equal(mc.big_H, Hfull)),
+                                                                  mc.noise_var, mc.Nt),
+                 expected="unchanged channel object")
 
 
 def first_principles_metric(metric, Wk, Hk, Msk, Re_k):
@@ -483,7 +528,7 @@ def eval_ext(chk, Hfull, K, n, r, noise, pe, iPu, variant, case):
         chk.outcome("removal_required", (n, r, ns))
     with chk.guard(name, case):
         chk.count("eval_extint_bd")
-        res = run_variant(Hfull, K, n, r, noise, pe, iPu, variant)
+        res = run_variant(Hfull, K, n, r, noise, pe, iPu, variant, chk, case)
         check_ext(chk, Hfull, K, n, r, noise, pe, iPu, variant, res, case)
     chk.nontriv(("B", K, n, case["family"], case["s"], r, noise, pe, iPu, kind, str(metric), ns))
 
@@ -499,22 +544,27 @@ H_INIT = {"iPu": 1.0, "noise_var": 1.0, "pe": 1.0}
 
 
 def hist_channels():
+    """three members per layout: the buffer / channel object is refreshed IN PLACE with the next one"""
     out = {}
     for name, (K, n, r, noise) in H_CHANNELS.items():
-        H = families.generic(700 + n, (K * n, K * n), True, tag=9)
-        out[name] = np.hstack([H, ext_channel(K, n, r, 700 + n)])
+        out[name] = [np.hstack([families.generic(700 + 10 * m + n, (K * n, K * n), True, tag=9),
+                                ext_channel(K, n, r, 700 + 10 * m + n)]) for m in range(3)]
     return out
 
 
-def hist_events(cls):
-    attrs = [("iPu", 0.5), ("iPu", 2.5), ("pe", 0.1), ("pe", 10.0)]
+def hist_events(cls, tier="quick"):
+    if tier == "thorough":
+        attrs = [("iPu", 0.5), ("iPu", 2.5), ("pe", 0.1), ("pe", 10.0)]
+    else:
+        attrs = [("iPu", 2.5), ("pe", 10.0)]
+    refresh = [("refresh", "A"), ("refresh", "B")]
     if cls == "EnhancedBD":
-        return ([("metric", m, ns) for m, ns in H_METRICS] + attrs + [("noise_var", 0.1)]
+        return ([("metric", m, ns) for m, ns in H_METRICS] + attrs + [("noise_var", 0.1)] + refresh
                 + [("run", "A"), ("run", "B")])
     if cls == "WhiteningBD":
-        return attrs + [("noise_var", 0.1), ("run", "A"), ("run", "B")]
-    return [("iPu", 0.5), ("iPu", 2.5), ("noise_var", 1e-2), ("noise_var", 10.0),
-            ("run_wf", "A"), ("run_wf", "B"), ("run_nowf", "A"), ("run_nowf", "B")]
+        return attrs + [("noise_var", 0.1)] + refresh + [("run", "A"), ("run", "B")]
+    return [("iPu", 0.5), ("iPu", 2.5), ("noise_var", 1e-2), ("noise_var", 10.0)] + refresh + \
+           [("run_wf", "A"), ("run_wf", "B"), ("run_nowf", "A"), ("run_nowf", "B")]
 
 
 def hist_sequences(tier):
@@ -523,7 +573,7 @@ def hist_sequences(tier):
     import itertools
     D = 4 if tier == "thorough" else 3
     for cls in ("EnhancedBD", "WhiteningBD", "BlockDiagonalizer"):
-        evs = hist_events(cls)
+        evs = hist_events(cls, tier)
         runs = [e for e in evs if e[0].startswith("run")]
         inits = [(("metric", m, ns),) for m, ns in H_METRICS] if cls == "EnhancedBD" else [()]
         for init in inits:
@@ -533,9 +583,34 @@ def hist_sequences(tier):
                         yield cls, init, tuple(pre) + (last,)
 
 
+def _parts(x):
+    """a result element is either one ndarray or a sequence / object array of ndarrays"""
+    if isinstance(x, (list, tuple)) or (isinstance(x, np.ndarray) and x.dtype == object):
+        return [np.asarray(u) for u in x]
+    return [np.asarray(x)]
+
+
+def _same_result(a, b):
+    if len(a) != len(b):
+        return False
+    for x, y in zip(a, b):
+        px, py = _parts(x), _parts(y)
+        if len(px) != len(py) or not all(u.shape == v.shape and np.array_equal(u, v)
+                                         for u, v in zip(px, py)):
+            return False
+    return True
+
+
+def _copy_result(res):
+    return [[np.array(u) for u in _parts(x)] for x in res]
+
+
 def run_history(chk, cls, init, seq, chans, case):
-    """execute the history on ONE object; check the result of the LAST run against
-    the relations for the current configuration and against a fresh object"""
+    """execute the history on ONE BD object, with ONE caller-owned channel buffer
+    (BlockDiagonalizer) / ONE channel object (ext-int classes) per layout that is
+    refreshed in place; check the LAST run: relations for the current configuration
+    and current channel content, inputs bit-identical after the call, bit-for-bit
+    equal to a fresh object on fresh inputs, and a second call gives the same."""
     from pyphysim.comm import blockdiagonalization as bdm
     from vmc import bfs
     cfg = dict(H_INIT, metric=None, ns=None)
@@ -546,12 +621,33 @@ def run_history(chk, cls, init, seq, chans, case):
         obj = bdm.WhiteningBD(K, cfg["iPu"], cfg["noise_var"], cfg["pe"])
     else:
         obj = bdm.BlockDiagonalizer(K, cfg["iPu"], cfg["noise_var"])
-    mcs = {}
+    plain = cls == "BlockDiagonalizer"
+    member = {"A": 0, "B": 0}
+    bufs = {}      # name -> the caller's ndarray, the SAME object for every call
+    mcs = {}       # name -> the caller's channel object, the SAME object for every call
     res = None
     last = None
     changed = set()
-    prev = bfs.digest(vars(obj))
-    chk.outcome("history_states", (cls, prev))
+
+    def current(name):
+        Kc, n, r, cnoise = H_CHANNELS[name]
+        M = np.asarray(chans[name][member[name]])
+        return M[:, :Kc * n] if plain else M
+
+    def call(ev):
+        name = ev[1]
+        Kc, n, r, cnoise = H_CHANNELS[name]
+        if plain:
+            if name not in bufs:
+                bufs[name] = np.array(current(name))
+            method = "block_diagonalize" if ev[0] == "run_wf" else "block_diagonalize_no_waterfilling"
+            return getattr(obj, method)(bufs[name])
+        if name not in mcs:
+            mcs[name] = make_ext_channel(current(name), Kc, n, r, cnoise)
+        return obj.block_diagonalize_no_waterfilling(mcs[name])
+
+    prev = (bfs.digest(vars(obj)), 0, 0)
+    chk.outcome("history_states", (cls,) + prev)
     for ev in tuple(init) + tuple(seq):
         if ev[0] == "metric":
             apply_metric(obj, ev[1], ev[2])
@@ -561,61 +657,70 @@ def run_history(chk, cls, init, seq, chans, case):
             setattr(obj, ev[0], ev[1])
             cfg[ev[0]] = ev[1]
             changed.add(ev[0])
-        else:
+        elif ev[0] == "refresh":
             name = ev[1]
             Kc, n, r, cnoise = H_CHANNELS[name]
-            if cls == "BlockDiagonalizer":
-                Hp = chans[name][:, :Kc * n]
-                method = "block_diagonalize" if ev[0] == "run_wf" else "block_diagonalize_no_waterfilling"
-                res = getattr(obj, method)(Hp.copy())
-            else:
-                if name not in mcs:
-                    mcs[name] = make_ext_channel(chans[name], Kc, n, r, cnoise)
-                res = obj.block_diagonalize_no_waterfilling(mcs[name])
+            member[name] = (member[name] + 1) % len(chans[name])
+            if plain and name in bufs:
+                bufs[name][:] = current(name)                     # H[:] = new_H
+            elif not plain and name in mcs:
+                mcs[name].init_from_channel_matrix(np.array(current(name)), np.full(Kc, n),
+                                                   np.full(Kc, n), Kc, r)
+                mcs[name].noise_var = cnoise
+            changed.add("refresh_in_place")
+        else:
+            res = call(ev)
             last = (ev, tuple(sorted(changed)))
             changed = set()
         chk.count("eval_history_events")
-        cur = bfs.digest(vars(obj))
-        chk.outcome("history_states", (cls, cur))
-        chk.outcome("history_transitions", (cls, prev, repr(ev)))
+        cur = (bfs.digest(vars(obj)), member["A"], member["B"])
+        chk.outcome("history_states", (cls,) + cur)
+        chk.outcome("history_transitions", (cls,) + prev + (repr(ev),))
         prev = cur
     ev, since = last
     how = "after_" + ("+".join(since) if since else "rerun")
     name = ev[1]
     Kc, n, r, cnoise = H_CHANNELS[name]
+    Hcur = np.array(current(name))
     chk.count("eval_history_runs_checked")
-    if cls == "BlockDiagonalizer":
-        Hp = chans[name][:, :Kc * n]
+    saved = _copy_result(res)
+    if plain:
         method = "block_diagonalize" if ev[0] == "run_wf" else "block_diagonalize_no_waterfilling"
+        sname = ("BlockDiagonalizer." + method,)
+        if not np.array_equal(bufs[name], Hcur):
+            chk.fail(sname + ("reused_object", "input_channel_modified"), case,
+                     observed=bufs[name], expected=Hcur)
         newH, Ms = res
-        sv = np.linalg.svd(Hp, compute_uv=False)
+        sv = np.linalg.svd(Hcur, compute_uv=False)
         W = obj.calc_receive_filter(newH)
-        check_plain(chk, Hp, Kc, n, cfg["iPu"], cfg["noise_var"], method, newH, Ms, W, case,
+        check_plain(chk, Hcur, Kc, n, cfg["iPu"], cfg["noise_var"], method, newH, Ms, W, case,
                     float(sv[0] / sv[-1]), float(sv[0]), tag="[reused_object]")
-        fresh = getattr(bdm.BlockDiagonalizer(K, cfg["iPu"], cfg["noise_var"]), method)(Hp.copy())
-        same = all(np.array_equal(np.asarray(a), np.asarray(b)) for a, b in zip(res, fresh))
+        fresh = getattr(bdm.BlockDiagonalizer(K, cfg["iPu"], cfg["noise_var"]), method)(np.array(Hcur))
     else:
         kind = "whitening" if cls == "WhiteningBD" else "enhanced"
         variant = (kind, cfg["metric"], cfg["ns"])
-        check_ext(chk, chans[name], Kc, n, r, cnoise, cfg["pe"], cfg["iPu"], variant, res, case,
+        sname = (cls, str(cfg["metric"]))
+        check_channel_untouched(chk, mcs[name], Hcur, Kc, n, cnoise, sname + ("reused_object",), case)
+        check_ext(chk, Hcur, Kc, n, r, cnoise, cfg["pe"], cfg["iPu"], variant, res, case,
                   tag=("reused_object",))
         if cls == "WhiteningBD":
             fo = bdm.WhiteningBD(K, cfg["iPu"], cfg["noise_var"], cfg["pe"])
         else:
             fo = bdm.EnhancedBD(K, cfg["iPu"], cfg["noise_var"], cfg["pe"])
             apply_metric(fo, cfg["metric"], cfg["ns"])
-        fresh = fo.block_diagonalize_no_waterfilling(make_ext_channel(chans[name], Kc, n, r, cnoise))
-        same = True
-        for a, b in zip(res, fresh):
-            a, b = list(a), list(b)
-            if len(a) != len(b) or not all(np.array_equal(np.asarray(x), np.asarray(y))
-                                           for x, y in zip(a, b)):
-                same = False
-    if not same:
+        fresh = fo.block_diagonalize_no_waterfilling(make_ext_channel(Hcur, Kc, n, r, cnoise))
+    if not _same_result(saved, fresh):
         chk.fail((cls, "reused_object", "differs_from_fresh_object", how), case,
-                 observed="power per user %r" % ([float(np.linalg.norm(m) ** 2) for m in res[0]]
-                                                  if cls != "BlockDiagonalizer" else "Ms differs"),
-                 expected="identical to a freshly constructed object with %r" % (cfg,))
+                 observed="power per user %r" % ([float(np.linalg.norm(m) ** 2) for m in saved[0]]
+                                                  if not plain else "Ms differs"),
+                 expected="identical to a freshly constructed object on fresh inputs with %r" % (cfg,))
+    # the same call once more on the same objects
+    again = call(ev)
+    chk.count("eval_history_events")
+    if not (_same_result(again, saved) and _same_result(res, saved)):
+        chk.fail((cls, "reused_object", "second_call_same_objects_differs", how), case,
+                 observed="result of the repeated call (or the first result object) changed",
+                 expected="bit-identical results")
     chk.nontriv(("H", cls, tuple(init), tuple(seq)))
 
 
@@ -633,6 +738,36 @@ def jobs_a(tier):
             for iPu in IPUS:
                 for noise in NOISES:
                     yield ("A", K, n, fam, s, H, iPu, noise)
+
+
+SCALES = (1e-12, 1e-9, 1e-6, 1e6)
+
+
+def jobs_a_scaled(tier):
+    """global channel scale c: every coefficient x c, noise x c^2 (the same water-filling
+    problem) and one independently scaled noise; all relations are scale covariant"""
+    S = 6 if tier == "thorough" else 2
+    for K, n in LAYOUTS:
+        members = [("generic", s, families.generic(s, (K * n, K * n), True, tag=9)) for s in range(S)]
+        members += [m for m in channel_members(K, n, "quick", "A") if m[0] == "weak_user"][:1]
+        for fam, s, H in members:
+            for c in SCALES:
+                for iPu, noise in ((1.0, 1.0 * c * c), (2.5, 1e-3 * c * c), (1.0, 1e-3)):
+                    yield ("A", K, n, fam + "_x%g" % c, s, H * c, iPu, noise)
+
+
+def jobs_b_scaled(tier):
+    S = 3 if tier == "thorough" else 1
+    for K, n in LAYOUTS:
+        for s in range(S):
+            H = families.generic(s, (K * n, K * n), True, tag=9)
+            for r in (1, 2):
+                He = ext_channel(K, n, r, s)
+                for c in SCALES:
+                    # everything x c with noise x c^2; and only the users' channel x c with pe, noise x c^2
+                    for Hfull, pe in ((np.hstack([H, He]) * c, 1.0), (np.hstack([H * c, He]), c * c)):
+                        for noise in (None, 0.1 * c * c):
+                            yield ("B", K, n, "generic_x%g" % c, s, Hfull, r, noise, pe, 1.0)
 
 
 def jobs_b(tier):
@@ -678,6 +813,12 @@ def main(chk):
         for job in shard(jobs_a(c.tier), i, nsh):
             run_job(c, job)
         for job in shard(jobs_b(c.tier), i, nsh):
+            run_job(c, job)
+        for job in shard(jobs_a_scaled(c.tier), i, nsh):
+            c.count("scaled_jobs")
+            run_job(c, job)
+        for job in shard(jobs_b_scaled(c.tier), i, nsh):
+            c.count("scaled_jobs")
             run_job(c, job)
         chans = hist_channels()
         for cls, init, seq in shard(hist_sequences(c.tier), i, nsh):
